@@ -53,3 +53,123 @@ for _v, (_hp, _fitted, _link, _mu) in L2_PARAM_VARIANTS.items():
         },
         props=["C01", "C13", "C06"],
     )
+
+# ------------------------------------------------------------------------------------------------ CUSUM, L2Saving (direct scores)
+contract(
+    target=FIT, self_class="CUSUM", variant="CUSUM",
+    params={"self": "obj:CUSUM", "X": "real[n,p]", "y": "none"},
+    modifies={"self._X": "=X", "self._is_fitted": "=True", "self.sums_": "real[n+1,p]"},
+    returns="=self",
+    ensures={"fitted": "self._is_fitted == True", "data": SAME_X, "sums": "PrefixSum(self.sums_, X)"},
+    props=["C06", "C10"],
+)
+contract(
+    target=EVAL, self_class="CUSUM", variant="CUSUM",
+    params={"self": "obj:CUSUM", "self._is_fitted": "bool=True", "self._X": "real[n,p]", "self.sums_": "real[n+1,p]", "cuts": "int[r,c]"},
+    requires=["PrefixSum(self.sums_, self._X)"],
+    raises={"ValueError": f"not {valid_cuts(3, 1)}"},
+    returns="real[r,p]",
+    ensures={
+        "shape": "result.shape == (r, p)",
+        "nonneg": "forall(range(r), range(p), lambda i, j: result[i, j] >= 0)",
+        # squared CUSUM == squared-error change score C(s,e) - C(s,k) - C(k,e) computed from the rows (C06)
+        "squared_is_l2_change_score": "forall(range(r), range(p), lambda i, j: using("
+                                      "L_sq(SUM(self._X, j, cuts[i, 0], cuts[i, 1]), self.sums_[cuts[i, 1], j] - self.sums_[cuts[i, 0], j]), "
+                                      "L_sq(SUM(self._X, j, cuts[i, 1], cuts[i, 2]), self.sums_[cuts[i, 2], j] - self.sums_[cuts[i, 1], j]), "
+                                      "L_sq(SUM(self._X, j, cuts[i, 0], cuts[i, 2]), self.sums_[cuts[i, 2], j] - self.sums_[cuts[i, 0], j]), "
+                                      "result[i, j] ** 2 == RSS(self._X, j, cuts[i, 0], cuts[i, 2])"
+                                      " - RSS(self._X, j, cuts[i, 0], cuts[i, 1]) - RSS(self._X, j, cuts[i, 1], cuts[i, 2])))",
+    },
+    props=["C06", "C13"],
+)
+contract(
+    target=FIT, self_class="L2Saving", variant="L2Saving",
+    params={"self": "obj:L2Saving", "X": "real[n,p]", "y": "none"},
+    modifies={"self._X": "=X", "self._is_fitted": "=True", "self.sums_": "real[n+1,p]"},
+    returns="=self",
+    ensures={"fitted": "self._is_fitted == True", "data": SAME_X, "sums": "PrefixSum(self.sums_, X)"},
+    props=["C06", "C10"],
+)
+contract(
+    target=EVAL, self_class="L2Saving", variant="L2Saving",
+    params={"self": "obj:L2Saving", "self._is_fitted": "bool=True", "self._X": "real[n,p]", "self.sums_": "real[n+1,p]", "cuts": "int[r,c]"},
+    requires=["PrefixSum(self.sums_, self._X)"],
+    raises={"ValueError": f"not {valid_cuts(2, 1)}"},
+    returns="real[r,p]",
+    ensures={
+        "shape": "result.shape == (r, p)",
+        "nonneg": "forall(range(r), range(p), lambda i, j: result[i, j] >= 0)",
+        # L2 saving == cost at baseline mean 0 minus cost at the optimal mean (C06)
+        "is_saving_of_l2cost0": "forall(range(r), range(p), lambda i, j: result[i, j] == SQDEV(self._X, j, cuts[i, 0], cuts[i, 1], 0)"
+                                " - RSS(self._X, j, cuts[i, 0], cuts[i, 1]))",
+    },
+    props=["C06", "C13"],
+)
+
+# ------------------------------------------------------------------------------------------------ GaussianVarCost
+def _floor16(e):
+    return f"ite({e} < 1e-16, 1e-16, {e})"
+
+
+_LEN = "(cuts[i, 1] - cuts[i, 0])"
+_RSSN = f"RSS(self._X, j, cuts[i, 0], cuts[i, 1]) / {_LEN}"
+GVAR_OPT = f"{_LEN} * LOG(2 * PI * {_floor16(_RSSN)}) + {_LEN}"
+
+contract(
+    target=FIT, self_class="GaussianVarCost", variant="GaussianVarCost/optim",
+    params={"self": "obj:GaussianVarCost", "self.param": "none", "X": "real[n,p]", "y": "none"},
+    modifies={"self._X": "=X", "self._is_fitted": "=True", "self.sums_": "real[n+1,p]", "self.sums2_": "real[n+1,p]", "self._param": "none"},
+    returns="=self",
+    ensures={"fitted": "self._is_fitted == True", "data": SAME_X, "sums": "PrefixSum(self.sums_, X)", "sums2": "PrefixSumSq(self.sums2_, X)"},
+    props=["C01", "C10", "C06"],
+)
+contract(
+    target=EVAL, self_class="GaussianVarCost", variant="GaussianVarCost/optim",
+    params={"self": "obj:GaussianVarCost", "self.param": "none", "self._is_fitted": "bool=True", "self._X": "real[n,p]",
+            "self.sums_": "real[n+1,p]", "self.sums2_": "real[n+1,p]", "cuts": "int[r,c]"},
+    requires=["PrefixSum(self.sums_, self._X)", "PrefixSumSq(self.sums2_, self._X)"],
+    raises={"ValueError": f"not {valid_cuts(2, 2)}"},
+    returns="real[r,p]",
+    ensures={
+        "shape": "result.shape == (r, p)",
+        "value": "forall(range(r), range(p), lambda i, j: using(L_var(SSQ(self._X, j, cuts[i, 0], cuts[i, 1]), SUM(self._X, j, cuts[i, 0], cuts[i, 1]),"
+                 f" {_LEN}), result[i, j] == {GVAR_OPT}))",
+    },
+    props=["C01", "C13", "C06"],
+)
+
+GV_FIXED = {
+    "scalar": ("(real,real)", "(real[1],real[1])", "self._param[0][0] == self.param[0] and self._param[1][0] == self.param[1]", "0", "0",
+               "self.param[1] <= 0"),
+    "len1": ("(real[1],real[1])", "(real[1],real[1])", "self._param[0][0] == self.param[0][0] and self._param[1][0] == self.param[1][0]", "0", "0",
+             "self.param[1][0] <= 0"),
+    "lenp": ("(real[p],real[p])", "(real[p],real[p])",
+             "forall(range(p), lambda q: self._param[0][q] == self.param[0][q] and self._param[1][q] == self.param[1][q])", "j", "j",
+             "not forall(range(p), lambda q: self.param[1][q] > 0)"),
+}
+for _v, (_pt, _ft, _link, _mi, _vi, _bad) in GV_FIXED.items():
+    contract(
+        target=FIT, self_class="GaussianVarCost", variant=f"GaussianVarCost/{_v}",
+        params={"self": "obj:GaussianVarCost", "self.param": _pt, "X": "real[n,p]", "y": "none"},
+        modifies={"self._X": "=X", "self._is_fitted": "=True", "self.sums_": "real[n+1,p]", "self.sums2_": "real[n+1,p]", "self._param": _ft},
+        raises={"ValueError": _bad},
+        returns="=self",
+        ensures={"fitted": "self._is_fitted == True", "data": SAME_X, "sums": "PrefixSum(self.sums_, X)", "sums2": "PrefixSumSq(self.sums2_, X)",
+                 "param": _link, "var_positive": "forall(range(len(self._param[1])), lambda q: self._param[1][q] > 0)"},
+        props=["C01", "C10", "C06", "C14"],
+    )
+    contract(
+        target=EVAL, self_class="GaussianVarCost", variant=f"GaussianVarCost/{_v}",
+        params={"self": "obj:GaussianVarCost", "self.param": _pt, "self._is_fitted": "bool=True", "self._X": "real[n,p]",
+                "self.sums_": "real[n+1,p]", "self.sums2_": "real[n+1,p]", "self._param": _ft, "cuts": "int[r,c]"},
+        requires=["PrefixSum(self.sums_, self._X)", "PrefixSumSq(self.sums2_, self._X)", _link,
+                  "forall(range(len(self._param[1])), lambda q: self._param[1][q] > 0)"],
+        raises={"ValueError": f"not {valid_cuts(2, 2)}"},
+        returns="real[r,p]",
+        ensures={
+            "shape": "result.shape == (r, p)",
+            "value": f"forall(range(r), range(p), lambda i, j: result[i, j] == {_LEN} * LOG(2 * PI * self._param[1][{_vi}])"
+                     f" + SQDEV(self._X, j, cuts[i, 0], cuts[i, 1], self._param[0][{_mi}]) / self._param[1][{_vi}])",
+        },
+        props=["C01", "C13", "C06"],
+    )
